@@ -34,31 +34,44 @@ Bounds == {<<1, 3>>, <<2, 2>>, <<0, 5>>, <<4, 5>>}
 NVals == {0, 1, 2, 5, 18}
 NoData == -1                                       \* no committee data: the reference variance is used
 
-VARIABLES fn, lo, hi, n, dnum, dden, hist
+\* ref: the reference variance as a multiple of the constructor's (the attribute can be re-assigned, like the bounds);
+\* n stays the committee variance in units of the CONSTRUCTOR's reference, so the argument of the update function is n / ref
+RefVals == {1, 2}
+VARIABLES fn, lo, hi, n, ref, dnum, dden, hist
 
-vars == <<fn, lo, hi, n, dnum, dden, hist>>
+vars == <<fn, lo, hi, n, ref, dnum, dden, hist>>
 
 Init == /\ fn \in Fns
         /\ \E b \in Bounds : lo = b[1] /\ hi = b[2]
-        /\ n = NoData
+        /\ n = NoData /\ ref = 1
         /\ dnum = lo + hi /\ dden = 2               \* the constructor starts at the midpoint
         /\ hist = <<>>
 
 SetVariance(v) == /\ n' = v /\ hist' = Append(hist, <<"var", v, 0>>)
-                  /\ UNCHANGED <<fn, lo, hi, dnum, dden>>
+                  /\ UNCHANGED <<fn, lo, hi, ref, dnum, dden>>
+
+SetRef(r) == /\ ref' = r /\ hist' = Append(hist, <<"ref", r, 0>>)
+             /\ UNCHANGED <<fn, lo, hi, n, dnum, dden>>
 
 SetBounds(b) == /\ lo' = b[1] /\ hi' = b[2] /\ hist' = Append(hist, <<"bounds", b[1], b[2]>>)
-                /\ UNCHANGED <<fn, n, dnum, dden>>
+                /\ UNCHANGED <<fn, n, ref, dnum, dden>>
 
-Eff(v) == IF v = NoData THEN 1 ELSE v               \* fallback: variance = reference
+\* the argument of the update function, in units of the CURRENT reference; without data: the current reference itself.
+\* (the rational form needs an integer: an update at a ratio off the lattice is not taken in this model; the replay checks
+\* the range there)
+OnLattice(v, r) == v = NoData \/ v % r = 0
+EffR(v, r) == IF v = NoData THEN 1 ELSE v \div r
+Eff(v) == EffR(v, ref)
 
-UpdateDelta == /\ dnum' = Num(lo, hi, fn, Eff(n)) /\ dden' = Den(fn, Eff(n))
+UpdateDelta == /\ OnLattice(n, ref)
+               /\ dnum' = Num(lo, hi, fn, Eff(n)) /\ dden' = Den(fn, Eff(n))
                /\ hist' = Append(hist, <<"update", 0, 0>>)
-               /\ UNCHANGED <<fn, lo, hi, n>>
+               /\ UNCHANGED <<fn, lo, hi, n, ref>>
 
 Next == /\ Len(hist) < MaxLen
         /\ \/ \E v \in NVals \cup {NoData} : SetVariance(v)
            \/ \E b \in Bounds : SetBounds(b)
+           \/ \E r \in RefVals : SetRef(r)
            \/ UpdateDelta
 
 Spec == Init /\ [][Next]_vars
@@ -68,7 +81,7 @@ Updated == Len(hist) > 0 /\ hist[Len(hist)][1] = "update"
 (* ---- properties (each an integer inequality) ---------------------------- *)
 C18_InRange    == Updated => (lo * dden <= dnum /\ dnum <= hi * dden)
 C18_MaxAtZero  == (Updated /\ n = 0) => dnum = hi * dden
-C18_MidAtRef   == (Updated /\ Eff(n) = 1) => 2 * dnum = (lo + hi) * dden
+C18_MidAtRef   == (Updated /\ Eff(n) = 1) => 2 * dnum = (lo + hi) * dden     \* n = the reference AS LAST ASSIGNED (or no data)
 C18_NearMinAtLarge ==      \* f(NMax) <= 1e-8 for tanh (n = 18), <= 1e-9 for exp (n = 30)
     /\ 2 * 100000000 <= FDen("tanh", 18)
     /\ 1000000000 <= FDen("exp", 30)
@@ -77,26 +90,27 @@ C18_Monotone   ==          \* f never increases with n  (FNum constant, FDen inc
 C18_NoHistory  == Updated => (dnum = Num(lo, hi, fn, Eff(n)) /\ dden = Den(fn, Eff(n)))
 
 (* ---- export: every action sequence up to MaxLen with the expected delta after each update --- *)
-Symbols == {<<"var", v, 0>> : v \in NVals \cup {NoData}} \cup {<<"bounds", b[1], b[2]>> : b \in Bounds} \cup {<<"update", 0, 0>>}
+Symbols == {<<"var", v, 0>> : v \in NVals \cup {NoData}} \cup {<<"bounds", b[1], b[2]>> : b \in Bounds} \cup {<<"update", 0, 0>>} \cup {<<"ref", r, 0>> : r \in RefVals}
 
 RECURSIVE SeqsUpTo(_)
 SeqsUpTo(k) == IF k = 0 THEN {<<>>} ELSE SeqsUpTo(k - 1) \cup {Append(q, x) : q \in {r \in SeqsUpTo(k - 1) : Len(r) = k - 1}, x \in Symbols}
 
-RECURSIVE Walk(_, _, _, _, _, _)
-\* expected <<num, den>> after each "update" in the sequence
-Walk(f, l, h, v, q, acc) ==
+RECURSIVE Walk(_, _, _, _, _, _, _)
+\* expected <<num, den>> after each "update" in the sequence (<<0, 0>>: off the lattice, only the range is owed)
+Walk(f, l, h, v, r, q, acc) ==
     IF Len(q) = 0 THEN acc
     ELSE LET x == Head(q)
-         IN CASE x[1] = "var"    -> Walk(f, l, h, x[2], Tail(q), acc)
-              [] x[1] = "bounds" -> Walk(f, x[2], x[3], v, Tail(q), acc)
-              [] OTHER           -> Walk(f, l, h, v, Tail(q), Append(acc, <<Num(l, h, f, Eff(v)), Den(f, Eff(v))>>))
+         IN CASE x[1] = "var"    -> Walk(f, l, h, x[2], r, Tail(q), acc)
+              [] x[1] = "bounds" -> Walk(f, x[2], x[3], v, r, Tail(q), acc)
+              [] x[1] = "ref"    -> Walk(f, l, h, v, x[2], Tail(q), acc)
+              [] OTHER           -> Walk(f, l, h, v, r, Tail(q), Append(acc, IF OnLattice(v, r) THEN <<Num(l, h, f, EffR(v, r)), Den(f, EffR(v, r))>> ELSE <<0, 0>>))
 
 \* longer histories of one shape: committee data appear, disappear and re-appear between updates (C18_NoHistory: the
 \* adapted delta is a function of the current inputs only, whatever was published or missing before)
 AltVals == {NoData, 0, 2, 5}
 Alternating == {<< <<"var", a, 0>>, <<"update", 0, 0>>, <<"var", b, 0>>, <<"update", 0, 0>>, <<"var", c, 0>>, <<"update", 0, 0>> >> : a \in AltVals, b \in AltVals, c \in AltVals}
 
-Cases == {[fn |-> f, lo |-> b[1], hi |-> b[2], actions |-> q, expect |-> Walk(f, b[1], b[2], NoData, q, <<>>)]
+Cases == {[fn |-> f, lo |-> b[1], hi |-> b[2], actions |-> q, expect |-> Walk(f, b[1], b[2], NoData, 1, q, <<>>)]
           : f \in Fns, b \in Bounds, q \in {r \in SeqsUpTo(MaxLen) : \E i \in 1..Len(r) : r[i][1] = "update"} \cup Alternating}
 
 Curve == {[fn |-> f, n |-> k, fnum |-> FNum(f, k), fden |-> FDen(f, k)] : <<f, k>> \in UNION {{<<g, j>> : j \in 0..NMax(g)} : g \in Fns}}
